@@ -782,6 +782,8 @@ def check(run):
         for c, r in zip(extra, eimpl):
             run.violations += oracle_case(c, r)
         run.coverage["search_cases"] = len(extra)
+    run.coverage["failing_cases_found"] = len(run.violations)
+    run.violations[:] = first_per_kind(run.violations)
     run.coverage["trusted_base"] += [
         "coq/Model/Versioning.v (+ Model/Timestamp.v, Model/Calendar.v): hand-written model of stix2/versioning.py, object markings and the utils they call (correspondence-checked each run)",
         "translators/tr_versioning.py: live STIX_UNMOD_PROPERTIES, _VERSIONING_PROPERTIES, registry and _id_contributing_properties of /repo; frozen tables from /verif/spec/stix_tables.json",
@@ -803,6 +805,17 @@ def search_cases(run):
         coverage = {}
     cases = gen_cases(R, 1500, 12)
     return cases
+
+
+def first_per_kind(violations):
+    """One replay per kind of failure is enough (the first found); the count of the others goes to the evidence."""
+    seen, out = set(), []
+    for v in violations:
+        k = (str(v.replay.get("check")).split(" (")[0].split(": ")[0].split(" '")[0], v.finding)
+        if k not in seen:
+            seen.add(k)
+            out.append(v)
+    return out
 
 
 def replay(payload):
